@@ -266,3 +266,105 @@ Proof.
       intros n H H'; cbn in H, H'; intuition (subst; discriminate).
   - vm_compute. repeat split; reflexivity.
 Qed.
+
+(* ---- the same laws for bodies wrapped by dynblock.Expand ------------------------------------
+   Model: Dyn/Expand.v (expandBody in ANY state: iteration, value marks, hidden attribute and block
+   sets; unknownBody via xbody); proofs: Dyn/ExpandLaws.v. The Lawful interface of Body/Laws.v is not
+   instantiated (it speaks of (kind, name) diagnostic lists; the dynblock model keeps per-call
+   error-ness), so the laws are proved directly.  Preconditions: eb_ok (no static block called
+   "dynamic", "dynamic" not hidden), schema_ok1 (attribute names unique, no block type "dynamic"),
+   disjoint schemata, fresh_for (a schema names nothing an earlier PartialContent consumed). *)
+From HclV Require Dyn.Expand Dyn.ExpandLaws.
+Local Open Scope list_scope.
+
+Theorem C04_expand_exactly_once :
+  forall (s : Dyn.Expand.schema1) (eb : Dyn.Expand.ebody),
+    ExpandLaws.eb_ok eb -> ExpandLaws.schema_ok1 s ->
+    let c := fst (Dyn.Expand.eb_partial_content s eb) in
+    Dyn.Expand.xc_attrs c = ExpandLaws.sel_attrs1 s eb /\
+    NoDup (map fst (Dyn.Expand.xc_attrs c)) /\
+    Dyn.Expand.xc_blocks c = flat_map (ExpandLaws.item_contrib eb s) (Dyn.Expand.eb_orig eb) /\
+    (forall d, In d (Dyn.Expand.eb_orig eb) ->
+       ExpandLaws.visible eb d = false \/ ExpandLaws.consumed1 s d = false -> ExpandLaws.item_contrib eb s d = []) /\
+    (forall d blk, In blk (ExpandLaws.item_contrib eb s d) -> ExpandLaws.real_type d = Some (Dyn.Expand.xb_type blk)).
+Proof. exact ExpandLaws.expand_exactly_once. Qed.
+Print Assumptions C04_expand_exactly_once.
+
+Theorem C04_expand_content_reports_rest :
+  forall (s : Dyn.Expand.schema1) (eb : Dyn.Expand.ebody),
+    ExpandLaws.eb_ok eb -> ExpandLaws.schema_ok1 s ->
+    let c1 := fst (Dyn.Expand.eb_partial_content s eb) in
+    let c := Dyn.Expand.eb_content s eb in
+    Dyn.Expand.xc_attrs c = Dyn.Expand.xc_attrs c1 /\
+    Dyn.Expand.xc_blocks c = Dyn.Expand.xc_blocks c1 /\
+    Dyn.Expand.xc_unsup c = Dyn.Expand.xc_unsup c1 /\
+    Dyn.Expand.xc_err c =
+      (Dyn.Expand.xc_err c1 ||
+       existsb (fun d => ExpandLaws.visible eb d && negb (ExpandLaws.consumed1 s d) && ExpandLaws.reportable d)
+               (Dyn.Expand.eb_orig eb))%bool.
+Proof. exact ExpandLaws.expand_content_reports_rest. Qed.
+Print Assumptions C04_expand_content_reports_rest.
+
+Theorem C04_expand_partial_keeps_rest :
+  forall (s : Dyn.Expand.schema1) (eb : Dyn.Expand.ebody),
+    ExpandLaws.eb_ok eb -> ExpandLaws.schema_ok1 s ->
+    let r := snd (Dyn.Expand.eb_partial_content s eb) in
+    ExpandLaws.eb_ok r /\
+    Dyn.Expand.eb_orig r = Dyn.Expand.eb_orig eb /\
+    Dyn.Expand.eb_fctx r = Dyn.Expand.eb_fctx eb /\
+    Dyn.Expand.eb_iter r = Dyn.Expand.eb_iter eb /\
+    Dyn.Expand.eb_marks r = Dyn.Expand.eb_marks eb /\
+    (forall d, ExpandLaws.visible r d = (ExpandLaws.visible eb d && negb (ExpandLaws.consumed1 s d))%bool) /\
+    filter (ExpandLaws.visible r) (Dyn.Expand.eb_orig r) =
+      filter (fun d => negb (ExpandLaws.consumed1 s d)) (filter (ExpandLaws.visible eb) (Dyn.Expand.eb_orig eb)).
+Proof. exact ExpandLaws.expand_partial_keeps_rest. Qed.
+Print Assumptions C04_expand_partial_keeps_rest.
+
+(* two-step = one-step for the expanded body (the law the seeded change C04-r2 breaks) *)
+Theorem C04_expand_two_step :
+  forall (s1 s2 : Dyn.Expand.schema1) (eb : Dyn.Expand.ebody),
+    ExpandLaws.eb_ok eb -> ExpandLaws.schema_ok1 s1 -> ExpandLaws.schema_ok1 s2 ->
+    ExpandLaws.disjoint1 s1 s2 -> ExpandLaws.fresh_for eb s1 -> ExpandLaws.fresh_for eb s2 ->
+    let '(c1, r1) := Dyn.Expand.eb_partial_content s1 eb in
+    let c2 := Dyn.Expand.eb_content s2 r1 in
+    let c := Dyn.Expand.eb_content (ExpandLaws.union1 s1 s2) eb in
+    Dyn.Expand.xc_attrs c = (Dyn.Expand.xc_attrs c1 ++ Dyn.Expand.xc_attrs c2) /\
+    NoDup (map fst (Dyn.Expand.xc_attrs c1 ++ Dyn.Expand.xc_attrs c2)) /\
+    (forall t, ExpandLaws.of_type t (Dyn.Expand.xc_blocks c) =
+               (ExpandLaws.of_type t (Dyn.Expand.xc_blocks c1) ++ ExpandLaws.of_type t (Dyn.Expand.xc_blocks c2))) /\
+    Dyn.Expand.xc_err c = (Dyn.Expand.xc_err c1 || Dyn.Expand.xc_err c2)%bool /\
+    Dyn.Expand.xc_unsup c = (Dyn.Expand.xc_unsup c1 || Dyn.Expand.xc_unsup c2)%bool.
+Proof. exact ExpandLaws.expand_two_step. Qed.
+Print Assumptions C04_expand_two_step.
+
+(* ... for any number of partial steps *)
+Theorem C04_expand_k_step :
+  forall (parts : list Dyn.Expand.schema1) (last : Dyn.Expand.schema1) (eb : Dyn.Expand.ebody),
+    ExpandLaws.eb_ok eb ->
+    Forall ExpandLaws.schema_ok1 (parts ++ [last]) ->
+    ExpandLaws.pairwise_disjoint1 (parts ++ [last]) ->
+    Forall (ExpandLaws.fresh_for eb) (parts ++ [last]) ->
+    let '(ak, bk, ek, uk) := ExpandLaws.run_steps1 parts last eb in
+    let c := Dyn.Expand.eb_content (ExpandLaws.union_all1 (parts ++ [last])) eb in
+    Dyn.Expand.xc_attrs c = ak /\ NoDup (map fst ak) /\
+    (forall t, ExpandLaws.of_type t (Dyn.Expand.xc_blocks c) = ExpandLaws.of_type t bk) /\
+    Dyn.Expand.xc_err c = ek /\ Dyn.Expand.xc_unsup c = uk.
+Proof. exact ExpandLaws.expand_k_step. Qed.
+Print Assumptions C04_expand_k_step.
+
+(* ... and for the wrapper type covering expandBody and unknownBody *)
+Theorem C04_xbody_two_step :
+  forall (s1 s2 : Dyn.Expand.schema1) (x : Dyn.Expand.xbody),
+    ExpandLaws.eb_ok (ExpandLaws.xb_base x) -> ExpandLaws.schema_ok1 s1 -> ExpandLaws.schema_ok1 s2 ->
+    ExpandLaws.disjoint1 s1 s2 -> ExpandLaws.fresh_for (ExpandLaws.xb_base x) s1 -> ExpandLaws.fresh_for (ExpandLaws.xb_base x) s2 ->
+    let '(c1, r1) := Dyn.Expand.xb_partial_content s1 x in
+    let c2 := Dyn.Expand.xb_content s2 r1 in
+    let c := Dyn.Expand.xb_content (ExpandLaws.union1 s1 s2) x in
+    Dyn.Expand.xc_attrs c = (Dyn.Expand.xc_attrs c1 ++ Dyn.Expand.xc_attrs c2) /\
+    NoDup (map fst (Dyn.Expand.xc_attrs c1 ++ Dyn.Expand.xc_attrs c2)) /\
+    (forall t, ExpandLaws.of_type t (Dyn.Expand.xc_blocks c) =
+               (ExpandLaws.of_type t (Dyn.Expand.xc_blocks c1) ++ ExpandLaws.of_type t (Dyn.Expand.xc_blocks c2))) /\
+    Dyn.Expand.xc_err c = (Dyn.Expand.xc_err c1 || Dyn.Expand.xc_err c2)%bool /\
+    Dyn.Expand.xc_unsup c = (Dyn.Expand.xc_unsup c1 || Dyn.Expand.xc_unsup c2)%bool.
+Proof. exact ExpandLaws.xb_two_step. Qed.
+Print Assumptions C04_xbody_two_step.
